@@ -987,6 +987,16 @@ impl Discovery {
       self.handle_topic_reader(Some(guid_prefix));
       self.handle_subscription_reader(Some(guid_prefix));
       self.handle_publication_reader(Some(guid_prefix));
+      // The calls above only see discovery samples that have not been read yet.
+      // What we had learned before the participant timed out has just been
+      // restored to DiscoveryDB from the attic, but our local writers and readers
+      // dropped those endpoints when the participant was lost. Announce them
+      // again.
+      let notifications =
+        rediscovery_notifications(&mut discovery_db_write(&self.discovery_db), guid_prefix);
+      for notification in notifications {
+        self.send_discovery_notification(notification);
+      }
       debug!("Participant rediscovery finished");
     }
   }
@@ -1961,6 +1971,42 @@ impl Discovery {
       .try_send(event)
       .unwrap_or_else(|e| error!("Cannot report participant status: {e:?}"));
   }
+}
+
+// Notifications that announce to the local writers and readers every remote
+// reader and writer DiscoveryDB knows of the given participant, exactly as if
+// their discovery data had just been received (cf. handle_subscription_reader
+// and handle_publication_reader).
+pub(crate) fn rediscovery_notifications(
+  discovery_db: &mut DiscoveryDB,
+  guid_prefix: GuidPrefix,
+) -> Vec<DiscoveryNotificationType> {
+  let (readers, writers) = discovery_db.endpoints_of_participant(guid_prefix);
+  let mut notifications = Vec::with_capacity(readers.len() + writers.len());
+  for drd in readers {
+    // update_subscription fills in the default locators of the participant
+    let discovered_reader_data = discovery_db.update_subscription(&drd);
+    info!(
+      "Rediscovered reader {:?} topic={:?}",
+      drd.reader_proxy.remote_reader_guid,
+      drd.subscription_topic_data.topic_name()
+    );
+    notifications.push(DiscoveryNotificationType::ReaderUpdated {
+      discovered_reader_data,
+    });
+  }
+  for dwd in writers {
+    let discovered_writer_data = discovery_db.update_publication(&dwd);
+    info!(
+      "Rediscovered writer {:?} topic={:?}",
+      dwd.writer_proxy.remote_writer_guid,
+      dwd.publication_topic_data.topic_name()
+    );
+    notifications.push(DiscoveryNotificationType::WriterUpdated {
+      discovered_writer_data,
+    });
+  }
+  notifications
 }
 
 // -----------------------------------------------------------------------
